@@ -134,6 +134,8 @@ def fault_ops(ctx, keys, grid, vals, model):
         for ip in ('ior', 'iand', 'isub', 'ixor'):
             simple(ip, 'setop', (ip, 'list', tuple(keys[::2])), True)
             simple(ip + '-same', 'setop', (ip, 'same', tuple(keys[1::2])), True)
+            # a plain iterable: unsorted, a key twice (sorted / de-duplicated by comparisons too)
+            simple(ip + '-duplist', 'setop', (ip, 'list', tuple(reversed(keys)) + tuple(keys[:2])), True)
     # set algebra with a second container (built before arming)
     mod = F.module(ctx.fam)
     sfx = 'Py' if ctx.impl == 'py' else ''
@@ -149,6 +151,18 @@ def fault_ops(ctx, keys, grid, vals, model):
                 fn = getattr(mod, fname + sfx)
                 return (lambda: O.outcome(lambda: list(fn(t, other)))), None, False
             ops.append((fname, 'setop', prepare))
+        # ... and with a plain iterable (unsorted, keys twice, gap keys) on either side
+        for order in (0, 1):
+            if fname == 'difference' and order == 1:
+                continue
+
+            def prepare(t, fname=fname, order=order):
+                other = list(reversed(grid[::2])) + list(grid[:3]) + list(keys[-1:])
+                fn = getattr(mod, fname + sfx)
+                if order == 0:
+                    return (lambda: O.outcome(lambda: list(fn(t, other)))), None, False
+                return (lambda: O.outcome(lambda: list(fn(other, t)))), None, False
+            ops.append((fname + '-iterable', 'setop', prepare))
     return ops
 
 
@@ -261,12 +275,17 @@ def _job(fam, kind, impl, sizes, n, thin):
                 # any prefix of a multi-key update is a legitimate stopping point
                 m = model.copy()
                 items = mop[2]
-                for j in range(len(items)):
-                    sub = (mop[0], mop[1], tuple(items[:j + 1]))
-                    if mop[0] in ('update', 'ior', 'isub', 'ixor'):
-                        mm = model.copy()
-                        O.apply_model(mm, sub)
-                        allowed.append(mm.contents())
+                orders = [list(items)]
+                if not ismap and mop[1] == 'list':
+                    # `^=` works through the distinct elements of a plain iterable in key order
+                    orders.append(sorted(set(items), key=F.skey))
+                for seq in orders:
+                    for j in range(len(seq)):
+                        sub = (mop[0], mop[1], tuple(seq[:j + 1]))
+                        if mop[0] in ('update', 'ior', 'isub', 'ixor'):
+                            mm = model.copy()
+                            O.apply_model(mm, sub)
+                            allowed.append(mm.contents())
                 if mop[0] == 'iand':
                     # the C implementation clears and refills: any subset-prefix of the kept keys
                     kept = [k for k in items if k in set(model.keylist())]
